@@ -216,6 +216,21 @@ Theorem C05_trcl_phase_den :
 Proof. exact trcl_phase_den. Qed.
 Print Assumptions C05_trcl_phase_den.
 
+(* the hypothesis "no CellRef yet" of C05_trcl_phase_den cannot be dropped: on a table that
+   already holds a CellRef the TRCL loop leaves a stale cache entry (the referenced cell is
+   copied before its own TRCL overwrites it), from fresh counters and an empty cache *)
+Theorem C05_trcl_phase_with_cellrefs_refuted :
+  exists s s' : xstate,
+    fresh_ok Z sterm s /\ s_cache s = [] /\ NoDup (map fst (s_cells s)) /\
+    x_trcl_phase 5 (map fst (s_cells s)) s = Ok s' /\
+    ~ cache_coherent Z sterm Z x_empty Z.eqb x_inv x_sense s'.
+Proof.
+  exists ex2_state, ex2_after. split; [apply fresh_ok_check; reflexivity|]. split; [reflexivity|].
+  split; [cbn; repeat (constructor; [cbn; intuition discriminate|]); constructor|].
+  split; [exact ex2_runs | exact ex2_stale].
+Qed.
+Print Assumptions C05_trcl_phase_with_cellrefs_refuted.
+
 (* CellInlining.inline_cells (occurrence counting, scores, threshold, recursive substitution,
    in-place loop over the dictionary) for any threshold: every tree that had a value at a point
    - in particular every cell, through TRef - has the same value there afterwards, and only
@@ -241,6 +256,41 @@ Proof.
 Qed.
 Print Assumptions C05_inline_cells_den.
 
+(* ... and conversely: after inline_cells nothing has a value it did not have before *)
+Theorem C05_inline_cells_den_conv :
+  forall (T surf P : Type) (sense : surf -> P -> bool) fuel num den (s : state T surf) cells',
+  inline_cells T fuel num den (s_cells s) = Ok cells' ->
+  forall p e b, Den T surf P sense (set_cells T surf s cells') p e b -> Den T surf P sense s p e b.
+Proof. exact inline_cells_den_conv. Qed.
+Print Assumptions C05_inline_cells_den_conv.
+
+(* THE CHAIN of construct_volume_t4, from the table of the parsed cell cards [s0] (no CellRef yet,
+   counters fresh, caches empty, no provenance) to the table whose level-0 cells are converted:
+   TRCL loop over every cell, FILL loop, inline_cells with any threshold.  The statement is about
+   the deck AS WRITTEN (LocW: a cell's TRCL moves it inside its universe; frame: an explicit
+   fill transformation places the filling universe, else the container's TRCL): for every
+   level-0 cell with a FILL, the returned cells correspond one-to-one and in order to the
+   descents below it; each has no FILL left, the descent's provenance, the leaf's material and
+   density, at every point the exact value of the descent, and is false outside the container
+   cell; every located descent is among them, its cell is true at the point, and when the
+   universes (as written) are partitions the cell of every other descent that has a value is
+   false there. *)
+Theorem C05_pipeline_located :
+  forall (T surf P : Type) (tr_empty : T -> bool) (teqb : T -> T -> bool)
+         (tr_surf : T -> surf -> surf) (inv : T -> P -> P) (sense : surf -> P -> bool),
+  sense_law tr_surf inv sense -> key_law tr_empty teqb inv ->
+  forall fuel cf ifd ifg num den (s0 s1 s2 : state T surf) rs cells3,
+  fresh_ok T surf s0 -> s_cache s0 = [] -> NoDup (map fst (s_cells s0)) -> all_ref_free T surf s0 ->
+  (forall c cl, dget c (s_cells s0) = Some cl -> c_orig cl = []) ->
+  trcl_phase T surf tr_empty teqb tr_surf fuel (map fst (s_cells s0)) s0 = Ok s1 ->
+  fill_phase T surf tr_empty teqb tr_surf fuel cf ifd ifg s1 = Ok (rs, s2) ->
+  inline_cells T fuel num den (s_cells s2) = Ok cells3 ->
+  Forall2 (OutcomeW T surf P tr_empty inv sense s0 (by_universe (s_cells s0))
+                    (set_cells T surf s2 cells3))
+          (fill_keys (s_cells s0)) rs.
+Proof. exact pipeline_located. Qed.
+Print Assumptions C05_pipeline_located.
+
 (* which transformation a FILL / *FILL / TRCL / *TRCL keyword yields (tokens abstract): whenever
    at least one number is written - a TR number whose card is not empty, three numbers even if
    all zero, or more - the result is never the empty tuple, so pot_fill's truthiness test takes
@@ -260,6 +310,67 @@ Proof.
 Qed.
 Print Assumptions C05_explicit_transformation_not_empty.
 
+(* THE PRECEDENCE RULE of the property text, from the keyword tokens of a cell card
+   (ParseMCNPCell.parse_one_cell_worker / parse_fill_kw / parse_trcl_kw, tokens abstract;
+   [mk] = the tuple as a transformation, falsy exactly when empty; [norm] = to_cos +
+   normalize_transform on four or more numbers, which returns twelve numbers):
+   the filling universe of a cell with `FILL=n` / `*FILL=n` is placed by the FILL transformation
+   whenever one is written - a TR number, three numbers (even 0 0 0), or more, starred or not -
+   whatever TRCL the cell has; a FILL without transformation follows the cell's TRCL; without
+   TRCL the universe sits in the cell's own frame *)
+Definition tuple_law {T : Type} (tr_empty : T -> bool) (mk : list Z -> T) : Prop :=
+  forall l, tr_empty (mk l) = match l with [] => true | _ => false end.
+
+Theorem C05_precedence_from_tokens :
+  forall (T P : Type) (tr_empty : T -> bool) (inv : T -> P -> P) (mk : list Z -> T)
+         (norm : bool -> list Z -> list Z),
+  tuple_law tr_empty mk -> (forall star params, norm star params <> []) ->
+  forall table mat rho geom imp u star univ trid params trcl (cl : cell T),
+  (forall k c, dget k table = Some c -> c <> []) ->
+  cell_of_keywords T mk norm table mat rho geom imp u (Some (star, univ, trid, params)) trcl = Ok cl ->
+  c_fill cl = Some univ /\
+  (params <> [] ->
+     exists lf, kw_tuple norm true star trid params table = Ok lf /\ lf <> [] /\
+                forall p, frame T P tr_empty inv cl p = inv (mk lf) p) /\
+  (params = [] ->
+     match trcl with
+     | Some (tstar, ttrid, tparams) =>
+         exists lt, kw_tuple norm false tstar ttrid tparams table = Ok lt /\
+                    forall p, frame T P tr_empty inv cl p =
+                              match lt with [] => p | _ => inv (mk lt) p end
+     | None => forall p, frame T P tr_empty inv cl p = p
+     end).
+Proof. exact precedence_from_tokens. Qed.
+Print Assumptions C05_precedence_from_tokens.
+
+(* ... end to end: below a container whose record comes from its keywords, the rest of a located
+   descent is located at the point moved back by the written FILL transformation, else by the
+   container's TRCL, else unmoved; C05_pipeline_located then gives the converted cell that is
+   true there *)
+Theorem C05_precedence_located :
+  forall (T surf P : Type) (tr_empty : T -> bool) (inv : T -> P -> P) (sense : surf -> P -> bool)
+         (mk : list Z -> T) (norm : bool -> list Z -> list Z),
+  tuple_law tr_empty mk -> (forall star params, norm star params <> []) ->
+  forall table mat rho geom imp u star univ trid params trcl (cl : cell T)
+         (s : state T surf) du key p c r,
+  (forall k cd, dget k table = Some cd -> cd <> []) ->
+  cell_of_keywords T mk norm table mat rho geom imp u (Some (star, univ, trid, params)) trcl = Ok cl ->
+  dget key (s_cells s) = Some cl ->
+  LocW T surf P tr_empty inv sense s du key p (key :: c :: r) true ->
+  (params <> [] ->
+     exists lf, kw_tuple norm true star trid params table = Ok lf /\ lf <> [] /\
+                LocW T surf P tr_empty inv sense s du c (inv (mk lf) p) (c :: r) true) /\
+  (params = [] ->
+     match trcl with
+     | Some (tstar, ttrid, tparams) =>
+         exists lt, kw_tuple norm false tstar ttrid tparams table = Ok lt /\
+                    LocW T surf P tr_empty inv sense s du c
+                         (match lt with [] => p | _ => inv (mk lt) p end) (c :: r) true
+     | None => LocW T surf P tr_empty inv sense s du c p (c :: r) true
+     end).
+Proof. exact precedence_located. Qed.
+Print Assumptions C05_precedence_located.
+
 (* non-vacuity: the executable instance of the correspondence check obeys both laws (points on a
    line), and a deck with two levels of universes (fill transformation at level 0, TRCL-only
    fill at level 1) satisfies every hypothesis above; the point x = 9 is located along
@@ -277,4 +388,18 @@ Proof.
   split; [exact x_sense_tr|]. split; [exact x_teqb_sound|]. split; [exact ex_fresh|].
   split; [reflexivity|]. split; [exact ex_orig_empty|]. split; [exact ex_partition|].
   split; [exact ex_located|]. exact ex_run.
+Qed.
+
+(* non-vacuity of the chain theorem on the same deck read as written *)
+Example C05_example_chain :
+  NoDup (map fst (s_cells ex_state)) /\ all_ref_free Z sterm ex_state /\
+  LocW Z sterm Z x_empty x_inv x_sense ex_state (by_universe (s_cells ex_state)) 1 9 [1; 11; 20] true /\
+  exists s1 rs s2 cells3,
+    x_trcl_phase 5 (map fst (s_cells ex_state)) ex_state = Ok s1 /\
+    x_fill_phase 5 5 false false s1 = Ok (rs, s2) /\
+    inline_cells Z 9 1 1 (s_cells s2) = Ok cells3 /\
+    rs = [[27; 31; 34]] /\
+    option_map (@c_orig Z) (dget 31 cells3) = Some (prov [1; 11; 20]).
+Proof.
+  split; [exact ex_nodup|]. split; [exact ex_ref_free|]. split; [exact ex_locatedW | exact ex_chain].
 Qed.
